@@ -245,8 +245,9 @@ def r8(repo, res):
             (report, untouched) = val
             cp, slots = code_points(lib)
         except Unfoldable as e:
-            res.err("C03.R8", f"solve_cn_model outside the folding language: {e}")
-            return
+            # no verdict on this instance; what the other instances show is still reported (a violation found there stands)
+            res.err("C03.R8", f"solve_cn_model outside the folding language on one instance ({inst.describe()[:80]}): {e}")
+            continue
         n += 1
         def canonical(points_):
             """Selections up to the naming of equivalent slots: (configurations taken as complete haplotypes, configurations taken as extra copies)."""
